@@ -658,4 +658,302 @@ theorem disjoint_iff (s1 e1 s2 e2 : Rat) :
     (max s1 e1 < min s2 e2 ∨ max s2 e2 < min s1 e1) ↔ min (max s1 e1) (max s2 e2) < max (min s1 e1) (min s2 e2) := by
   grind
 
+theorem overlap3_same (tol : Rat) (a b c d : P3) (ax : Ax) (ts te : Rat)
+    (hδ : b.get ax - a.get ax ≠ 0)
+    (hc : c = lineAt a b ts) (hd : d = lineAt a b te)
+    (hgap : ∀ i j : Nat,
+      rabs (col4 (a.get ax) (b.get ax) (c.get ax) (d.get ax) i - col4 (a.get ax) (b.get ax) (c.get ax) (d.get ax) j) < tol
+        ↔ col4 (a.get ax) (b.get ax) (c.get ax) (d.get ax) i = col4 (a.get ax) (b.get ax) (c.get ax) (d.get ax) j) :
+    Res.same (overlap3 true tol a b c d ax) (overlapParam (lineAt a b) ts te) := by
+  have hs2 : c.get ax = a.get ax + ts * (b.get ax - a.get ax) := by rw [hc, lineAt_get]
+  have he2 : d.get ax = a.get ax + te * (b.get ax - a.get ax) := by rw [hd, lineAt_get]
+  generalize hs1d : a.get ax = s1 at *
+  generalize he1d : b.get ax = e1 at *
+  generalize hs2d : c.get ax = s2 at *
+  generalize he2d : d.get ax = e2 at *
+  have hts : ts = (s2 - s1) / (e1 - s1) := by rw [hs2]; field_simp; ring
+  have hte : te = (e2 - s1) / (e1 - s1) := by rw [he2]; field_simp; ring
+  have hP : ∀ i, col4 a b c d i = lineAt a b ((col4 s1 e1 s2 e2 i - s1) / (e1 - s1)) := by
+    intro i
+    match i with
+    | 0 => simp [col4, lineAt_zero]
+    | 1 => simp only [col4]; rw [div_self hδ, lineAt_one]
+    | 2 => simp only [col4]; rw [← hts, ← hc]
+    | (n + 3) => simp only [col4]; rw [← hte, ← hd]
+  unfold overlap3 overlapParam
+  simp only [hs1d, he1d, hs2d, he2d, touchAsPoint, Bool.true_and, decide_eq_true_eq, hgap, hP]
+  by_cases hdis : max s1 e1 < min s2 e2 ∨ max s2 e2 < min s1 e1
+  · have hmodel : (if max s1 e1 < min s2 e2 then (Res.none : Res P3) else if max s2 e2 < min s1 e1 then Res.none else
+        if col4 s1 e1 s2 e2 (argsortMid s1 e1 s2 e2).1 = col4 s1 e1 s2 e2 (argsortMid s1 e1 s2 e2).2 then
+          Res.point (lineAt a b ((col4 s1 e1 s2 e2 (argsortMid s1 e1 s2 e2).1 - s1) / (e1 - s1)))
+        else Res.segment (lineAt a b ((col4 s1 e1 s2 e2 (argsortMid s1 e1 s2 e2).1 - s1) / (e1 - s1)))
+          (lineAt a b ((col4 s1 e1 s2 e2 (argsortMid s1 e1 s2 e2).2 - s1) / (e1 - s1)))) = Res.none := by
+      rcases hdis with h | h
+      · rw [if_pos h]
+      · by_cases h' : max s1 e1 < min s2 e2
+        · rw [if_pos h']
+        · rw [if_neg h', if_pos h]
+    rw [hmodel]
+    have hv := (disjoint_iff s1 e1 s2 e2).mp hdis
+    rcases lt_or_gt_of_ne hδ with hneg | hpos
+    · obtain ⟨e1', e2'⟩ := scalar_neg s1 e1 s2 e2 hneg
+      have := (phi_strictAnti s1 (e1 - s1) hneg) hv
+      simp only [e1', e2'] at this
+      rw [hts, hte, if_pos this]
+      trivial
+    · obtain ⟨e1', e2'⟩ := scalar_pos s1 e1 s2 e2 hpos
+      have := (phi_strictMono s1 (e1 - s1) hpos) hv
+      simp only [e1', e2'] at this
+      rw [hts, hte, if_pos this]
+      trivial
+  · have hn1 : ¬ max s1 e1 < min s2 e2 := fun h => hdis (Or.inl h)
+    have hn2 : ¬ max s2 e2 < min s1 e1 := fun h => hdis (Or.inr h)
+    rw [if_neg hn1, if_neg hn2]
+    obtain ⟨m1, m2⟩ := argsortMid_spec s1 e1 s2 e2 hn1 hn2
+    rw [m1, m2]
+    have hv : ¬ min (max s1 e1) (max s2 e2) < max (min s1 e1) (min s2 e2) := fun h => hdis ((disjoint_iff s1 e1 s2 e2).mpr h)
+    rcases lt_or_gt_of_ne hδ with hneg | hpos
+    · obtain ⟨e1', e2'⟩ := scalar_neg s1 e1 s2 e2 hneg
+      have hanti := phi_strictAnti s1 (e1 - s1) hneg
+      rw [e1', e2', ← hts, ← hte]
+      have hle : max (min ts te) 0 ≤ min (max ts te) 1 := by
+        have := hanti.antitone (not_lt.mp hv)
+        simp only [e1', e2'] at this
+        rw [hts, hte]; exact this
+      rw [if_neg (not_lt.mpr hle)]
+      by_cases heq : max (min s1 e1) (min s2 e2) = min (max s1 e1) (max s2 e2)
+      · have heq' : max (min ts te) 0 = min (max ts te) 1 := by
+          have := congrArg (fun v => (v - s1) / (e1 - s1)) heq
+          simp only [e1', e2'] at this
+          rw [hts, hte]; exact this.symm
+        rw [if_pos heq, if_pos heq']
+        show lineAt a b _ = lineAt a b _
+        rw [heq']
+      · have heq' : ¬ max (min ts te) 0 = min (max ts te) 1 := by
+          intro h
+          apply heq
+          apply hanti.injective
+          simp only [e1', e2']
+          rw [← hts, ← hte]; exact h.symm
+        rw [if_neg heq, if_neg heq']
+        right; exact ⟨rfl, rfl⟩
+    · obtain ⟨e1', e2'⟩ := scalar_pos s1 e1 s2 e2 hpos
+      have hmono := phi_strictMono s1 (e1 - s1) hpos
+      rw [e1', e2', ← hts, ← hte]
+      have hle : max (min ts te) 0 ≤ min (max ts te) 1 := by
+        have := hmono.monotone (not_lt.mp hv)
+        simp only [e1', e2'] at this
+        rw [hts, hte]; exact this
+      rw [if_neg (not_lt.mpr hle)]
+      by_cases heq : max (min s1 e1) (min s2 e2) = min (max s1 e1) (max s2 e2)
+      · have heq' : max (min ts te) 0 = min (max ts te) 1 := by
+          have := congrArg (fun v => (v - s1) / (e1 - s1)) heq
+          simp only [e1', e2'] at this
+          rw [hts, hte]; exact this
+        rw [if_pos heq, if_pos heq']
+        show lineAt a b _ = lineAt a b _
+        rfl
+      · have heq' : ¬ max (min ts te) 0 = min (max ts te) 1 := by
+          intro h
+          apply heq
+          apply hmono.injective
+          simp only [e1', e2']
+          rw [← hts, ← hte]; exact h
+        rw [if_neg heq, if_neg heq']
+        left; exact ⟨rfl, rfl⟩
+
+theorem rabs_zero : rabs 0 = 0 := by simp [rabs]
+
+theorem ratios_const (tol lam : Rat) (h0 : 0 ≤ tol) (t : List Rat) (h : ∀ x ∈ t, x = lam) :
+    ratiosDiffer tol t = false := by
+  match t with
+  | [] => rfl
+  | [_] => rfl
+  | [t0, t1] =>
+    have e0 := h t0 (by simp); have e1 := h t1 (by simp)
+    simp only [ratiosDiffer, e0, e1, sub_self, rabs_zero, decide_eq_false_iff_not, not_lt]; exact h0
+  | [t0, t1, t2] =>
+    have e0 := h t0 (by simp); have e1 := h t1 (by simp); have e2 := h t2 (by simp)
+    simp only [ratiosDiffer, e0, e1, e2, sub_self, rabs_zero, Bool.or_eq_false_iff, decide_eq_false_iff_not, not_lt]
+    exact ⟨h0, h0⟩
+  | _ :: _ :: _ :: _ :: _ => rfl
+
+theorem head_same {α : Type} (P : Ax → Prop) (f : Ax → Res α) (R : Res α) (sel : List Ax)
+    (hne : sel ≠ []) (hP : ∀ ax ∈ sel, P ax) (hf : ∀ ax, P ax → Res.same (f ax) R) :
+    Res.same (match sel with | [] => Res.err Err.index | ax :: _ => f ax) R := by
+  match sel with
+  | [] => exact absurd rfl hne
+  | ax :: _ => exact hf ax (hP ax (by simp))
+
+theorem col4_diff_int (s1 e1 s2 e2 : Rat) (u s u2 : Int) (h1 : e1 - s1 = u) (h2 : s2 - s1 = s) (h3 : e2 - s2 = u2) :
+    ∀ i j : Nat, ∃ m : Int, col4 s1 e1 s2 e2 i - col4 s1 e1 s2 e2 j = m := by
+  have key : ∀ i : Nat, ∃ m : Int, col4 s1 e1 s2 e2 i - s1 = m := by
+    intro i
+    match i with
+    | 0 => exact ⟨0, by simp [col4]⟩
+    | 1 => exact ⟨u, by simp [col4, h1]⟩
+    | 2 => exact ⟨s, by simp [col4, h2]⟩
+    | (n + 3) => exact ⟨s + u2, by simp only [col4]; push_cast; linarith⟩
+  intro i j
+  obtain ⟨mi, hi⟩ := key i
+  obtain ⟨mj, hj⟩ := key j
+  exact ⟨mi - mj, by push_cast; linarith⟩
+
+/-- a vector `w` with `w × D = 0`, `D ≠ 0`, is `(w·D / D·D)·D` -/
+theorem proj_of_cross (wx wy wz dx dy dz : Rat)
+    (cx : wy * dz - wz * dy = 0) (cy : wz * dx - wx * dz = 0) (cz : wx * dy - wy * dx = 0)
+    (hD : dx ≠ 0 ∨ dy ≠ 0 ∨ dz ≠ 0) :
+    wx = (wx * dx + wy * dy + wz * dz) / (dx * dx + dy * dy + dz * dz) * dx ∧
+    wy = (wx * dx + wy * dy + wz * dz) / (dx * dx + dy * dy + dz * dz) * dy ∧
+    wz = (wx * dx + wy * dy + wz * dz) / (dx * dx + dy * dy + dz * dz) * dz := by
+  have hn : dx * dx + dy * dy + dz * dz ≠ 0 := by
+    rcases hD with h | h | h <;> have := mul_self_pos.mpr h <;>
+      nlinarith [mul_self_nonneg dx, mul_self_nonneg dy, mul_self_nonneg dz]
+  refine ⟨?_, ?_, ?_⟩ <;> rw [div_mul_eq_mul_div, eq_div_iff hn]
+  · linear_combination dy * cz - dz * cy
+  · linear_combination dz * cx - dx * cz
+  · linear_combination dx * cy - dy * cx
+
+/-- under parallelism the specification is the colinearity test followed by the interval overlap -/
+theorem segInter3_parallel (a b c d : P3)
+    (pxy : (b.x - a.x) * (d.y - c.y) - (b.y - a.y) * (d.x - c.x) = 0)
+    (pxz : (b.x - a.x) * (d.z - c.z) - (b.z - a.z) * (d.x - c.x) = 0)
+    (pyz : (b.y - a.y) * (d.z - c.z) - (b.z - a.z) * (d.y - c.y) = 0) :
+    segInter3 a b c d =
+      if (c.y - a.y) * (b.z - a.z) - (c.z - a.z) * (b.y - a.y) ≠ 0 ∨
+         (c.z - a.z) * (b.x - a.x) - (c.x - a.x) * (b.z - a.z) ≠ 0 ∨
+         (c.x - a.x) * (b.y - a.y) - (c.y - a.y) * (b.x - a.x) ≠ 0 then Res.none
+      else overlapParam (lineAt a b)
+        (((c.x - a.x) * (b.x - a.x) + (c.y - a.y) * (b.y - a.y) + (c.z - a.z) * (b.z - a.z)) /
+          ((b.x - a.x) * (b.x - a.x) + (b.y - a.y) * (b.y - a.y) + (b.z - a.z) * (b.z - a.z)))
+        (((d.x - a.x) * (b.x - a.x) + (d.y - a.y) * (b.y - a.y) + (d.z - a.z) * (b.z - a.z)) /
+          ((b.x - a.x) * (b.x - a.x) + (b.y - a.y) * (b.y - a.y) + (b.z - a.z) * (b.z - a.z))) := by
+  unfold segInter3
+  simp only []
+  rw [if_neg]
+  · rfl
+  · rintro (h | h | h)
+    · exact h pyz
+    · apply h; linarith
+    · exact h pxy
+
+theorem par3d_same_core (tol : Rat) (a b c d : P3) (h0 : 0 ≤ tol)
+    (E1 : ∀ ax, rabs ((⟨b.x - a.x, b.y - a.y, b.z - a.z⟩ : P3).get ax) > tol ↔ (⟨b.x - a.x, b.y - a.y, b.z - a.z⟩ : P3).get ax ≠ 0)
+    (E2 : ∀ ax, rabs ((⟨d.x - c.x, d.y - c.y, d.z - c.z⟩ : P3).get ax) > tol ↔ (⟨d.x - c.x, d.y - c.y, d.z - c.z⟩ : P3).get ax ≠ 0)
+    (E3x : rabs ((c.y - a.y) * (b.z - a.z) - (c.z - a.z) * (b.y - a.y)) > tol ↔ (c.y - a.y) * (b.z - a.z) - (c.z - a.z) * (b.y - a.y) ≠ 0)
+    (E3y : rabs ((c.z - a.z) * (b.x - a.x) - (c.x - a.x) * (b.z - a.z)) > tol ↔ (c.z - a.z) * (b.x - a.x) - (c.x - a.x) * (b.z - a.z) ≠ 0)
+    (E3z : rabs ((c.x - a.x) * (b.y - a.y) - (c.y - a.y) * (b.x - a.x)) > tol ↔ (c.x - a.x) * (b.y - a.y) - (c.y - a.y) * (b.x - a.x) ≠ 0)
+    (E4 : ∀ ax, ∀ i j : Nat,
+      rabs (col4 (a.get ax) (b.get ax) (c.get ax) (d.get ax) i - col4 (a.get ax) (b.get ax) (c.get ax) (d.get ax) j) < tol
+        ↔ col4 (a.get ax) (b.get ax) (c.get ax) (d.get ax) i = col4 (a.get ax) (b.get ax) (c.get ax) (d.get ax) j)
+    (pxy : (b.x - a.x) * (d.y - c.y) - (b.y - a.y) * (d.x - c.x) = 0)
+    (pxz : (b.x - a.x) * (d.z - c.z) - (b.z - a.z) * (d.x - c.x) = 0)
+    (pyz : (b.y - a.y) * (d.z - c.z) - (b.z - a.z) * (d.y - c.y) = 0)
+    (nd1 : b.x - a.x ≠ 0 ∨ b.y - a.y ≠ 0 ∨ b.z - a.z ≠ 0)
+    (nd2 : d.x - c.x ≠ 0 ∨ d.y - c.y ≠ 0 ∨ d.z - c.z ≠ 0) :
+    Res.same (par3d true tol a b c d) (segInter3 a b c d) := by
+  -- proportionality: d1 = lam · d2
+  obtain ⟨hu, hv, hw⟩ := proj_of_cross (b.x - a.x) (b.y - a.y) (b.z - a.z) (d.x - c.x) (d.y - c.y) (d.z - c.z)
+    (by linarith) (by linarith) (by linarith) nd2
+  generalize hlam : ((b.x - a.x) * (d.x - c.x) + (b.y - a.y) * (d.y - c.y) + (b.z - a.z) * (d.z - c.z)) /
+    ((d.x - c.x) * (d.x - c.x) + (d.y - c.y) * (d.y - c.y) + (d.z - c.z) * (d.z - c.z)) = lam at hu hv hw
+  have hlam0 : lam ≠ 0 := by
+    rintro rfl
+    rcases nd1 with h | h | h
+    · apply h; rw [hu]; ring
+    · apply h; rw [hv]; ring
+    · apply h; rw [hw]; ring
+  have hprop : ∀ ax, (⟨b.x - a.x, b.y - a.y, b.z - a.z⟩ : P3).get ax
+      = lam * (⟨d.x - c.x, d.y - c.y, d.z - c.z⟩ : P3).get ax := by
+    intro ax; cases ax <;> simp only [P3.get]
+    · exact hu
+    · exact hv
+    · exact hw
+  have hmask : ∀ ax, (⟨b.x - a.x, b.y - a.y, b.z - a.z⟩ : P3).get ax ≠ 0
+      ↔ (⟨d.x - c.x, d.y - c.y, d.z - c.z⟩ : P3).get ax ≠ 0 := by
+    intro ax; rw [hprop ax]; simp [hlam0]
+  have hget : ∀ ax, (⟨b.x - a.x, b.y - a.y, b.z - a.z⟩ : P3).get ax = b.get ax - a.get ax := by
+    intro ax; cases ax <;> rfl
+  unfold par3d
+  simp only [E1, E2, E3x, E3y, E3z]
+  rw [if_neg (by
+    rintro (h | h | h) <;> exact h (decide_eq_decide.mpr (hmask _)))]
+  rw [ratios_const tol lam h0 _ (by
+    intro x hx
+    obtain ⟨ax, hax, rfl⟩ := List.mem_map.mp hx
+    have h2 := (List.mem_filter.mp hax).2
+    simp only [decide_eq_true_eq] at h2
+    have h3 := (hmask ax).mp h2
+    rw [hprop ax, mul_div_cancel_right₀ _ h3])]
+  simp only [Bool.false_eq_true, if_false]
+  rw [segInter3_parallel a b c d pxy pxz pyz]
+  by_cases hcol : (c.y - a.y) * (b.z - a.z) - (c.z - a.z) * (b.y - a.y) ≠ 0 ∨
+         (c.z - a.z) * (b.x - a.x) - (c.x - a.x) * (b.z - a.z) ≠ 0 ∨
+         (c.x - a.x) * (b.y - a.y) - (c.y - a.y) * (b.x - a.x) ≠ 0
+  · rw [if_pos hcol]
+    rcases hcol with h | h | h
+    · rw [if_pos h]; trivial
+    · by_cases h1 : (c.y - a.y) * (b.z - a.z) - (c.z - a.z) * (b.y - a.y) ≠ 0
+      · rw [if_pos h1]; trivial
+      · rw [if_neg h1, if_pos h]; trivial
+    · by_cases h1 : (c.y - a.y) * (b.z - a.z) - (c.z - a.z) * (b.y - a.y) ≠ 0
+      · rw [if_pos h1]; trivial
+      · rw [if_neg h1]
+        by_cases h2 : (c.z - a.z) * (b.x - a.x) - (c.x - a.x) * (b.z - a.z) ≠ 0
+        · rw [if_pos h2]; trivial
+        · rw [if_neg h2, if_pos h]; trivial
+  · rw [if_neg hcol]
+    have hcx : (c.y - a.y) * (b.z - a.z) - (c.z - a.z) * (b.y - a.y) = 0 := by
+      by_contra h; exact hcol (Or.inl h)
+    have hcy : (c.z - a.z) * (b.x - a.x) - (c.x - a.x) * (b.z - a.z) = 0 := by
+      by_contra h; exact hcol (Or.inr (Or.inl h))
+    have hcz : (c.x - a.x) * (b.y - a.y) - (c.y - a.y) * (b.x - a.x) = 0 := by
+      by_contra h; exact hcol (Or.inr (Or.inr h))
+    rw [if_neg (not_not.mpr hcx), if_neg (not_not.mpr hcy), if_neg (not_not.mpr hcz)]
+    -- c and d lie on line 1, with the parameters of the specification
+    obtain ⟨c1, c2, c3⟩ := proj_of_cross (c.x - a.x) (c.y - a.y) (c.z - a.z) (b.x - a.x) (b.y - a.y) (b.z - a.z)
+      hcx hcy hcz nd1
+    obtain ⟨d1', d2', d3'⟩ := proj_of_cross (d.x - a.x) (d.y - a.y) (d.z - a.z) (b.x - a.x) (b.y - a.y) (b.z - a.z)
+      (by linarith) (by linarith) (by linarith) nd1
+    generalize hts : ((c.x - a.x) * (b.x - a.x) + (c.y - a.y) * (b.y - a.y) + (c.z - a.z) * (b.z - a.z)) /
+          ((b.x - a.x) * (b.x - a.x) + (b.y - a.y) * (b.y - a.y) + (b.z - a.z) * (b.z - a.z)) = ts at c1 c2 c3 ⊢
+    generalize hte : ((d.x - a.x) * (b.x - a.x) + (d.y - a.y) * (b.y - a.y) + (d.z - a.z) * (b.z - a.z)) /
+          ((b.x - a.x) * (b.x - a.x) + (b.y - a.y) * (b.y - a.y) + (b.z - a.z) * (b.z - a.z)) = te at d1' d2' d3' ⊢
+    have hc : c = lineAt a b ts := by
+      cases c; simp only [lineAt, P3.mk.injEq] at *
+      exact ⟨by linarith, by linarith, by linarith⟩
+    have hd : d = lineAt a b te := by
+      cases d; simp only [lineAt, P3.mk.injEq] at *
+      exact ⟨by linarith, by linarith, by linarith⟩
+    -- `np.allclose` on the coordinates without extent: they coincide
+    have hclose : ([Ax.x, Ax.y, Ax.z].all fun ax =>
+        decide ((⟨b.x - a.x, b.y - a.y, b.z - a.z⟩ : P3).get ax ≠ 0) || close1 tol (a.get ax) (c.get ax)) = true := by
+      rw [List.all_eq_true]
+      intro ax _
+      by_cases hz : (⟨b.x - a.x, b.y - a.y, b.z - a.z⟩ : P3).get ax ≠ 0
+      · simp [hz]
+      · have hz' : b.get ax - a.get ax = 0 := by rw [← hget]; exact not_not.mp hz
+        have : c.get ax = a.get ax := by rw [hc, lineAt_get, hz']; ring
+        simp only [close1, this, sub_self, rabs_zero, Bool.or_eq_true, decide_eq_true_eq]
+        right
+        have : 0 ≤ rabs (a.get ax) := by rw [rabs_eq]; exact abs_nonneg _
+        have : (0:Rat) < atol := by decide +kernel
+        nlinarith
+    rw [if_neg (by rw [hclose]; simp)]
+    apply head_same (fun ax => (⟨b.x - a.x, b.y - a.y, b.z - a.z⟩ : P3).get ax ≠ 0)
+    · -- some coordinate has an extent
+      intro hnil
+      have hall : ∀ ax, ax ∉ List.filter (fun ax => decide ((⟨b.x - a.x, b.y - a.y, b.z - a.z⟩ : P3).get ax ≠ 0)) [Ax.x, Ax.y, Ax.z] := by
+        intro ax; rw [hnil]; exact List.not_mem_nil
+      rcases nd1 with h | h | h
+      · exact hall Ax.x (List.mem_filter.mpr ⟨by simp, by simp only [P3.get]; exact decide_eq_true h⟩)
+      · exact hall Ax.y (List.mem_filter.mpr ⟨by simp, by simp only [P3.get]; exact decide_eq_true h⟩)
+      · exact hall Ax.z (List.mem_filter.mpr ⟨by simp, by simp only [P3.get]; exact decide_eq_true h⟩)
+    · intro ax hax
+      have h2 := (List.mem_filter.mp hax).2
+      simpa using h2
+    · intro ax hax
+      exact overlap3_same tol a b c d ax ts te (by rw [← hget]; exact hax) hc hd (E4 ax)
+
+
 end PorepyVerif.C28
